@@ -1278,4 +1278,46 @@ example : ∃ v', steadyNonlinear exCfg (certify (1 / 1000000000000) exCfg.logga
 example : isOk (steadyNonlinear exCfg (certify (1 / 1000000000000) exCfg.loggable (fun _ _ => some [3, 0])) exBlocks exV0)
     = false := by decide +kernel
 
+
+/-! ## 13. Write-back is keyed by quantity, not by position -/
+
+theorem upd_comm (f : Nat → Cell) (k k' : Nat) (x x' : Cell) (h : k ≠ k') :
+    upd (upd f k x) k' x' = upd (upd f k' x') k x := by
+  funext q
+  simp only [upd]
+  by_cases h1 : q = k'
+  · by_cases h2 : q = k
+    · exact absurd (h2.symm.trans h1) h
+    · subst h1; simp [h2]
+  · by_cases h2 : q = k
+    · subst h2; simp [h1]
+    · simp [h1, h2]
+
+/-- **the order in which the (quantity, value) pairs are written does not matter** as long as no quantity occurs twice:
+write-back depends on which value is paired with which quantity id only. (The evaluator enumerates its unknowns in
+CPython set order, e.g. `[8, 7]`; reordering the ids without reordering the values -- or vice versa -- is *not* such a
+permutation of pairs and changes the result.) -/
+theorem updMany_perm (kvs kvs' : List (Nat × Cell)) (hp : kvs.Perm kvs') (hn : (kvs.map Prod.fst).Nodup)
+    (f : Nat → Cell) : updMany f kvs = updMany f kvs' := by
+  induction hp generalizing f with
+  | nil => rfl
+  | cons a _ ih =>
+    obtain ⟨k, x⟩ := a
+    simp only [updMany]
+    exact ih (List.nodup_cons.mp (by simpa using hn)).2 _
+  | swap a b l =>
+    obtain ⟨k, x⟩ := a
+    obtain ⟨k', x'⟩ := b
+    simp only [updMany]
+    have hne : k' ≠ k := by
+      simp only [List.map_cons, List.nodup_cons, List.mem_cons, not_or] at hn
+      exact hn.1.1
+    rw [upd_comm f k' k x' x hne]
+  | trans h1 _ ih1 ih2 =>
+    rw [ih1 hn, ih2 ((h1.map Prod.fst).nodup_iff.mp hn)]
+
+/-- two pairings of different values with the same two quantities give different variants: the pairing is observable -/
+example : updMany (fun _ => none) [(8, some 1), (7, some 2)] 7 ≠ updMany (fun _ => none) [(7, some 1), (8, some 2)] 7 := by
+  decide +kernel
+
 end IrisVerif.C05
